@@ -68,6 +68,24 @@ CHECKS = {
                 "theorem only. 'Latest request wins' is how the statement is read for repeated bans of one address. No axioms.",
         "technique": "Coq proof over a history model of the ban list + wire-level history correspondence on the real server",
     },
+    "C11": {
+        "text": "Model FS/Namespace.v: the tree below the file root as a map from component lists to files / info forks / folders / "
+                "aliases, and the handlers on it: listing (ignore patterns, trailing .incomplete cut, folder item counts, size = data + "
+                "resource fork, type/creator from the info fork or the extension table REGENERATED from hotline/file_types.go, aliases "
+                "followed), get-info, download reply, set-comment, rename, move, delete (with the four-file group), new folder, make "
+                "alias, with Go's os.Rename / os.Remove failure rules and alias loops. Theorems (Props/C11.v): "
+                "listed_name_round_trips (the listing's Mac Roman encoder inverts ReadPath's decoder on EVERY byte string), "
+                "listed_entry_is_addressable, complete_name_listed_unchanged, partial_listed_under_final_name, list_exact, "
+                "ignored_entries_not_listed, sizes_agree (list row = get-info = download reply = bytes on disk for a file without "
+                "resource fork), delete_removes_group + delete_changes_nothing_else, mkdir_never_replaces, move_plain_file_partial. "
+                "Correspondence: 10-21 requests per history through the real handlers on a real tree (folders, forks, partial uploads, "
+                "names with .incomplete in the middle, Mac Roman high bytes, dot/@ files, aliases incl. dangling and self-referential), "
+                "after EVERY step the whole directory tree (or the parsed reply) is compared with the model.",
+        "note": "Two defects found and repaired: .incomplete stripped anywhere in a name (bda93bc), an unresolvable alias made its folder "
+                "unlistable (3c057cb). PARTIAL: the four-file group of rename/move is a theorem only for files without side files; with "
+                "side files it is established by the correspondence. Dates and folder inode sizes are not modelled. No axioms.",
+        "technique": "Coq proof over a reference namespace model + per-step whole-tree differential correspondence on the real file handlers",
+    },
     "C19": {
         "text": "Model Srv/Board.v: a text store with ONE shared read cursor (Seek, chunked Read, prepending Write that persists), "
                 "io.ReadAll as 'read chunks of any positive capacity until the empty chunk', critical sections in the order a lock "
